@@ -123,7 +123,8 @@ def _check_case(i):
     if rng.random() < 0.3:
         text = noise.random_text(rng, 80)
     parsed = refparse.parse(text)
-    name = rng.choice(['k%d_%d.hyeong', 'k %d %d.hyeong', 'k:%d:%d.hyeong', '한글 %d_%d.hyeong', 'é😀%d_%d.hyeong', '%d_%d.x.hyeong']) % (os.getpid(), i)
+    name = rng.choice(['k%d_%d.hyeong', 'k %d %d.hyeong', 'k:%d:%d.hyeong', '한글 %d_%d.hyeong', 'é😀%d_%d.hyeong', '%d_%d.x.hyeong', '안녕하세요_세계_프로그램_예제_목록_%d_%d.hyeong',
+                       'a_rather_long_file_name_for_a_listing_%d_%d.hyeong']) % (os.getpid(), i)
     path = os.path.join(rundir, name)
     with open(path, 'w', encoding='utf-8', newline='') as f:
         f.write(text)
